@@ -690,9 +690,9 @@ def checkStat (toks : List String) : Option String :=
 
 def parseTok (s : String) : Option Hagall.Auth.Tok :=
   match s.splitOn "," with
-  | [w, alg, m, e, i, n] =>
+  | [w, alg, m, e, i, n, iss] =>
     let oi (x : String) : Option Int := if x == "-" then none else x.toInt?
-    some { wellFormed := w == "1", alg, macOk := m == "1", exp := oi e, iat := oi i, nbf := oi n }
+    some { wellFormed := w == "1", alg, macOk := m == "1", exp := oi e, iat := oi i, nbf := oi n, issHDS := iss == "H" }
   | _ => none
 
 /-- `AUTH route=.. secret=.. hdr=.. query=.. cookie=.. T0=.. T1=.. T2=.. | entered=.. status=..`: one request against
